@@ -1,5 +1,8 @@
-(* model driver for component ServerLoop (C14).  The property oracle on the implementation's
-   observations is checks/C14.py (judge); this driver has the `model` mode only. *)
+(* driver for component ServerLoop (C14).
+     model   <ops>   the extracted model: one observation line per logged event + a state line per op
+     monitor <obs>   the extracted Spec monitors over an observation log (lines "<case> <event…>",
+                     e.g. the implementation's): per case "<case> verdict <0|1|2|3|4> <#events> <first rejected event>"
+   The property oracle of checks/C14.py is `monitor` applied to the implementation's log. *)
 open Model
 open Zconv
 
@@ -16,13 +19,15 @@ let ent_str = function
   | Tm i -> "t" ^ string_of_int (iz i) | Cl i -> "c" ^ string_of_int (iz i)
   | Li i -> "l" ^ string_of_int (iz i) | Es i -> "e" ^ string_of_int (iz i)
 
-let parse_kind = function
-  | "act" -> KAct | "read" -> KRead | "write" -> KWrite | "closed" -> KClosed
-  | "accepted" -> KAccepted | "connected" -> KConnected | "abolished" -> KAbolished
+let parse_skind = function
+  | "act" -> SAct | "read" -> SCb KRead | "write" -> SCb KWrite | "closed" -> SCb KClosed
+  | "abolished" -> SCb KAbolished | "accepted" -> SIn KAccepted | "connected" -> SIn KConnected
   | s -> failwith ("bad kind " ^ s)
-let kind_str = function
-  | KAct -> "act" | KRead -> "read" | KWrite -> "write" | KClosed -> "closed"
-  | KAccepted -> "accepted" | KConnected -> "connected" | KAbolished -> "abolished"
+let cb_str = function KRead -> "read" | KWrite -> "write" | KClosed -> "closed" | KAbolished -> "abolished"
+let parse_cb = function "read" -> KRead | "write" -> KWrite | "closed" -> KClosed | "abolished" -> KAbolished
+                        | s -> failwith ("bad cb " ^ s)
+let ik_str = function KAccepted -> "accepted" | KConnected -> "connected"
+let parse_ik = function "accepted" -> KAccepted | "connected" -> KConnected | s -> failwith ("bad intro " ^ s)
 
 let num s = zi (int_of_string s)
 
@@ -67,7 +72,7 @@ let parse_item (s : string) : epitem =
 let parse_op (t : string list) : op = match t with
   | "on" :: e :: k :: nw :: acc :: rest ->
     let groups = match rest with [] -> [] | "/" :: r -> split_on "/" r | _ -> failwith "bad on" in
-    OOn { s_ent = parse_ent e; s_kind = parse_kind k; s_new = num nw; s_acc = (acc = "1");
+    OOn { s_ent = parse_ent e; s_kind = parse_skind k; s_new = num nw; s_acc = (acc = "1");
           s_acts = List.map parse_action (List.filter (fun g -> g <> []) groups) }
   | "run" :: items -> ORun (List.map parse_item items)
   | "sendq" :: l -> OSendq (List.map (function "w" -> SWould | "e" -> SErr | k -> SSent (num k)) l)
@@ -82,15 +87,17 @@ let zs z = string_of_int (iz z)
 let ev_str (e : ev) : string = match e with
   | EvNow n -> "now " ^ zs n
   | EvAct (t, due, now) -> Printf.sprintf "act t%s due=%s now=%s" (zs t) (zs due) (zs now)
-  | EvCb (e, k) -> Printf.sprintf "cb %s %s" (ent_str e) (kind_str k)
+  | EvCb (e, k, c) -> Printf.sprintf "cb %s %s @%s" (ent_str e) (cb_str k) (zs c)
+  | EvIntro (e, k, i, c) -> Printf.sprintf "intro %s %s c%s @%s" (ent_str e) (ik_str k) (zs i) (zs c)
+  | EvIntroRet (i, a) -> Printf.sprintf "introret c%s %s" (zs i) (b01 a)
   | EvWait t -> "wait " ^ zs t
   | EvItem f -> "item " ^ (if f then "foreign" else "script")
   | EvCtl (o, e, m) -> Printf.sprintf "ctl %s %s %s" (match o with CAdd -> "add" | CMod -> "mod" | CDel -> "del") (ent_str e) (zs m)
-  | EvSend (i, n, r) -> Printf.sprintf "send c%s %s %s" (zs i) (zs n) (zs r)
+  | EvSend (i, n, r, d) -> Printf.sprintf "send c%s %s %s %s" (zs i) (zs n) (zs r) (if d then "d" else "w")
   | EvRecv (i, r) -> Printf.sprintf "recv c%s %s" (zs i) (zs r)
   | EvAccept (i, ok) -> Printf.sprintf "accept l%s %s" (zs i) (b01 ok)
   | EvSoErr (i, err) -> Printf.sprintf "soerr e%s %s" (zs i) (zs err)
-  | EvCreated (e, t) -> Printf.sprintf "created %s %s" (ent_str e) (zs t)
+  | EvCreated (e, t, iv) -> Printf.sprintf "created %s %s %s" (ent_str e) (zs t) (zs iv)
   | EvRemoved e -> "removed " ^ ent_str e
   | EvDeferred e -> "deferred " ^ ent_str e
   | EvWrote (i, ok, p) -> Printf.sprintf "wrote c%s %s %s" (zs i) (b01 ok) (zs p)
@@ -100,22 +107,51 @@ let ev_str (e : ev) : string = match e with
   | EvRunEnter -> "run"
   | EvRunRet -> "ret"
 
+(* the inverse, for the monitor mode; None for lines that are not events (state lines, "! …") *)
+let cid s = num (String.sub s 1 (String.length s - 1))
+let after_eq s = match String.index_opt s '=' with Some k -> String.sub s (k + 1) (String.length s - k - 1) | None -> s
+let parse_ev (t : string list) : ev option =
+  try match t with
+  | ["now"; n] -> Some (EvNow (num n))
+  | ["act"; t; d; n] -> Some (EvAct (cid t, num (after_eq d), num (after_eq n)))
+  | ["cb"; e; k; c] -> Some (EvCb (parse_ent e, parse_cb k, num (String.sub c 1 (String.length c - 1))))
+  | ["intro"; e; k; i; c] -> Some (EvIntro (parse_ent e, parse_ik k, cid i, num (String.sub c 1 (String.length c - 1))))
+  | ["introret"; i; a] -> Some (EvIntroRet (cid i, a = "1"))
+  | ["wait"; t] -> Some (EvWait (num t))
+  | ["item"; f] -> Some (EvItem (f = "foreign"))
+  | ["ctl"; o; e; m] -> Some (EvCtl ((match o with "add" -> CAdd | "mod" -> CMod | "del" -> CDel | _ -> failwith "ctl"), parse_ent e, num m))
+  | ["send"; i; n; r; d] -> Some (EvSend (cid i, num n, num r, d = "d"))
+  | ["recv"; i; r] -> Some (EvRecv (cid i, num r))
+  | ["accept"; i; ok] -> Some (EvAccept (cid i, ok = "1"))
+  | ["soerr"; i; e] -> Some (EvSoErr (cid i, num e))
+  | ["created"; e; t; iv] -> Some (EvCreated (parse_ent e, num t, num iv))
+  | ["removed"; e] -> Some (EvRemoved (parse_ent e))
+  | ["deferred"; e] -> Some (EvDeferred (parse_ent e))
+  | ["wrote"; i; ok; p] -> Some (EvWrote (cid i, ok = "1", num p))
+  | ["readret"; i; ok] -> Some (EvRead (cid i, ok = "1"))
+  | ["skip"] -> Some EvSkip
+  | ["interrupt"; f] -> Some (EvInterrupt (f = "1"))
+  | ["run"] -> Some EvRunEnter
+  | ["ret"] -> Some EvRunRet
+  | _ -> None
+  with _ -> None
+
 let list_str f l = if l = [] then "-" else String.concat "," (List.map f l)
 
 let state_line (s : state) : string =
-  Printf.sprintf "st clk=%s | q=%s closing=%s intr=%s pool=t:%d,l:%d,e:%d,c:%d cl=%s"
+  let by_ent (a, _) (b, _) = compare (ent_str a) (ent_str b) in
+  Printf.sprintf "st clk=%s | q=%s closing=%s intr=%s pool=t:%d,l:%d,e:%d,c:%d cl=%s reg=%s evfd=%s"
     (zs s.clk)
     (list_str (fun (k, v) -> zs k ^ ":" ^ (match v with Some t -> "t" ^ zs t | None -> "-")) s.queue)
     (list_str (fun i -> "c" ^ zs i) s.closing)
     (b01 s.intr)
     (List.length s.timers) (List.length s.listeners) (List.length s.estabs) (List.length s.clients)
     (list_str (fun (i, c) -> Printf.sprintf "c%s:%s:%s" (zs i) (zs c.c_back) (b01 c.c_susp))
-       (List.sort compare (List.map (fun (i, c) -> (i, c)) s.clients)
-        |> List.sort (fun (a, _) (b, _) -> compare (iz a) (iz b))))
+       (List.sort (fun (a, _) (b, _) -> compare (iz a) (iz b)) s.clients))
+    (list_str (fun (e, f) -> ent_str e ^ ":" ^ zs (map_events f)) (List.sort by_ent s.socks))
+    (b01 (iz s.evcount > 0))
 
-let () =
-  let mode = Sys.argv.(1) and file = Sys.argv.(2) in
-  if mode <> "model" then (prerr_endline "serverloop driver: only `model` mode"; exit 2);
+let run_model file =
   let fuel = nat_of_int 4000 in
   run_cases file (fun _ -> init)
     (fun st _ toks ->
@@ -128,3 +164,42 @@ let () =
          st'
        end)
     (fun _ -> ())
+
+(* monitor mode: group the lines by case number, parse the events, run the four monitors
+   incrementally (so that the first rejected event can be named) *)
+let run_monitor file =
+  let ic = open_in file in
+  let cur = ref (-1) in
+  let t = ref (Some tmon0) and r = ref (Some rmon0) and c = ref (Some cmon0) and i = ref (Some imon0) in
+  let n = ref 0 and verdict = ref 0 and culprit = ref "-" in
+  let flush_case () =
+    if !cur >= 0 then Printf.printf "%d verdict %d %d %s\n" !cur !verdict !n !culprit in
+  let reset k = flush_case (); cur := k; t := Some tmon0; r := Some rmon0; c := Some cmon0; i := Some imon0;
+    n := 0; verdict := 0; culprit := "-" in
+  let stepm st f e = match !st with Some m -> st := f m e | None -> () in
+  (try
+    while true do
+      let line = input_line ic in
+      match tokens line with
+      | k :: rest when (match int_of_string_opt k with Some _ -> true | None -> false) ->
+        let k = int_of_string k in
+        if k <> !cur then reset k;
+        (match parse_ev rest with
+         | Some e when !verdict = 0 ->
+           incr n;
+           stepm t tmon_step e; stepm r rmon_step e; stepm c cmon_step e; stepm i imon_step e;
+           let v = if !t = None then 1 else if !r = None then 2 else if !c = None then 3 else if !i = None then 4 else 0 in
+           if v <> 0 then (verdict := v; culprit := String.concat "_" rest)
+         | _ -> ())
+      | _ -> ()
+    done
+  with End_of_file -> ());
+  flush_case ();
+  close_in ic
+
+let () =
+  let mode = Sys.argv.(1) and file = Sys.argv.(2) in
+  match mode with
+  | "model" -> run_model file
+  | "monitor" -> run_monitor file
+  | _ -> prerr_endline "serverloop driver: modes `model` and `monitor`"; exit 2
